@@ -1195,4 +1195,185 @@ theorem cond_find (cls : Cls) (kvs : List (Str × Val)) (name k f opx op vq v : 
   exact cond_elem cls kvs name k f op _ _ (.str v) lc rs j rl c kvs' hname hk.plain hk.notText hf.keyTok hl hj hs1 rfl hs2
     hopc (fun kv hkv => hg c kvs' kv (List.mem_of_getElem? hj) hkv) fu hfu
 
+/-- `name[k op v]/f` on an empty record list: the engine raises `IndexError` (a miss for `get`) -/
+theorem cond_find_empty (cls : Cls) (kvs : List (Str × Val)) (name k f opx op vq v : Str) (lc : Cls) (rl : Bool)
+    (hname : PlainKey name) (hk : FieldKey k) (hop : OpSpell opx op) (hlit : LitSpell vq v)
+    (hv : PlainLit v) (hl : lookup name kvs = some (.list lc [])) (fuel : Nat) (hfuel : fuel ≥ 2) :
+    findD fuel (.dict cls kvs) [] false true [name ++ bracket (k ++ opx ++ vq), f] (.at []) rl slash
+      = .error .IndexError := by
+  obtain ⟨g, rfl⟩ : ∃ g, fuel = g + 2 := ⟨fuel - 2, by omega⟩
+  have hopc := opSpell_canon hop
+  have hs0 := split_cond name k opx op vq v (Or.inr hname) hk.cond hop hlit hv
+  have hs1 : splitNameIndex (bracket (k ++ op ++ ['\''] ++ condValStr (.str v) ++ ['\''])) = .ok ([], .cond k op (.str v)) := by
+    have := split_cond [] k op op _ v (Or.inl rfl) hk.cond hopc (.sq v) hv
+    simpa [condValStr, List.append_assoc] using this
+  have hqq : getAt (.dict cls kvs) ([] ++ [Seg.key name]) = some (.list lc []) := getAt_root_key cls kvs name _ hl
+  rw [find_keycond_step (g + 1) _ true rl [] slash _ name k op (.str v) [f] cls kvs _ rfl hs0 hname.ne hname.notUp
+    hname.keyTok.notStar hl]
+  exact find_cond_on_empty g _ false rl _ _ _ k op (.str v) [f] lc hqq hs1 hk.notText
+
+/-- `name/k[text() op v]/../f` from the root -/
+theorem textform_find (cls : Cls) (kvs : List (Str × Val)) (name k f opx op vq v : Str) (lc : Cls) (rs : List Val) (rl : Bool)
+    (hname : PlainKey name) (hk : FieldKey k) (hf : PlainKey f) (hop : OpSpell opx op) (hlit : LitSpell vq v)
+    (hv : PlainLit v) (hl : lookup name kvs = some (.list lc rs)) (hrs : ∀ r ∈ rs, isDict r = true)
+    (hg : ∀ c kvs' kv, Val.dict c kvs' ∈ rs → lookup k kvs' = some kv → textGuard kv (.str v) = false)
+    (fuel : Nat) (hfuel : fuel ≥ rs.length + 10) :
+    ∃ r, findD fuel (.dict cls kvs) [] false true [name, k ++ bracket (sTextFn ++ opx ++ vq), ['.', '.'], f] (.at []) rl slash
+          = .ok (.dict cls kvs, r) ∧
+      r.isFound = !(somes (rs.map (condOutcome k f op (.str v)))).isEmpty ∧
+      (r.isFound = true → r.value = collect rl (somes (rs.map (condOutcome k f op (.str v))))) := by
+  obtain ⟨g, rfl⟩ : ∃ g, fuel = g + 3 := ⟨fuel - 3, by omega⟩
+  have hopc := opSpell_canon hop
+  have hs1 := split_cond k sTextFn opx op vq v (Or.inr hk.plain) condKey_text hop hlit hv
+  have hs2 : splitNameIndex (bracket (sTextFn ++ op ++ ['\''] ++ condValStr (.str v) ++ ['\''])) = .ok ([], .cond sTextFn op (.str v)) := by
+    have := split_cond [] sTextFn op op _ v (Or.inl rfl) condKey_text hopc (.sq v) hv
+    simpa [condValStr, List.append_assoc] using this
+  have hqq : getAt (.dict cls kvs) ([] ++ [Seg.key name]) = some (.list lc rs) := getAt_root_key cls kvs name _ hl
+  rw [find_key_step (g + 2) _ true rl [] slash name _ cls kvs _ (by simp) rfl hname.keyTok hl]
+  rw [find_name_on_list (g + 1) _ false rl _ _ _ k _ _ lc rs hqq hs1 hk.plain.ne hk.plain.notUp]
+  rw [find_star_step g _ false rl _ _ _ _ lc rs hqq split_star]
+  apply cond_loop cls kvs name k f op (.str v) rs rl _ _ (by simp) hrs _ g (by omega)
+  intro j c kvs' hj fu hfu
+  exact textform_elem cls kvs name k f op _ _ (.str v) lc rs j rl c kvs' hname hk.plain hf.keyTok hl hj hs1 rfl hs2
+    hopc (fun kv hkv => hg c kvs' kv (List.mem_of_getElem? hj) hkv) fu hfu
+
+/-! ### the predicate forms through `get` / item access / `first` -/
+
+theorem getCore_of_find_err (cls : Cls) (kvs : List (Str × Val)) (xp : Str) (toks : List Str) (d : Val) (raise rl : Bool)
+    (fuel : Nat) (hq : startsWith xp ['?'] = false) (hpc : hasPathChar xp = true) (htok : tokenize xp = toks)
+    (hr : findD fuel (.dict cls kvs) [] false true toks (.at []) rl slash = .error .IndexError) :
+    getCore fuel (.dict cls kvs) xp d raise rl
+      = (.dict cls kvs, if raise then .error .IndexError else .ok d) := by
+  simp only [getCore, hq, Bool.false_eq_true, if_false, hpc, if_true, htok, hr, caught]
+  cases raise <;> simp
+
+/-- API layer when `_find` raises `IndexError`: the same observable result as a miss -/
+theorem select_api_err (cls : Cls) (kvs : List (Str × Val)) (xp : Str) (toks : List Str) (d : Val)
+    (fuel : Nat) (hq : startsWith xp ['?'] = false) (hpc : hasPathChar xp = true) (htok : tokenize xp = toks)
+    (hfind : ∀ rl, findD fuel (.dict cls kvs) [] false true toks (.at []) rl slash = .error .IndexError) :
+    get fuel (.dict cls kvs) xp d = (.dict cls kvs, .ok d) ∧
+    getItem fuel (.dict cls kvs) xp = (.dict cls kvs, .error .IndexError) ∧
+    first fuel (.dict cls kvs) xp d = (.dict cls kvs, .ok (firstOf [] d)) := by
+  refine ⟨?_, ?_, ?_⟩
+  · rw [get, getCore_of_find_err cls kvs xp toks d false true fuel hq hpc htok (hfind true)]; rfl
+  · rw [getItem, getCore_of_find_err cls kvs xp toks Val.none true true fuel hq hpc htok (hfind true)]; rfl
+  · rw [first, getCore_of_find_err cls kvs xp toks d false false fuel hq hpc htok (hfind false)]
+    simp only [Bool.false_eq_true, if_false, firstOf]
+    cases d with
+    | list c xs =>
+      cases xs with
+      | nil => rfl
+      | cons x xs => cases xs <;> rfl
+    | _ => rfl
+
+theorem cond_text_chars (k opx op vq v : Str) (hk : CondKey k) (hop : OpSpell opx op) (hlit : LitSpell vq v) (hv : PlainLit v) :
+    ∀ c ∈ k ++ opx ++ vq, c ≠ ']' ∧ c ≠ '/' := by
+  obtain ⟨_, hopch, _⟩ := hop.cases'
+  have hvn := hlit.no hv
+  intro c hc
+  simp only [List.mem_append] at hc
+  rcases hc with (hc | hc) | hc
+  · have := plainChar_ne (hk.chars c hc).1
+    exact ⟨this.2.2.1, this.1⟩
+  · rcases hopch c hc with rfl | rfl | rfl <;> exact ⟨by decide, by decide⟩
+  · exact ⟨(hvn c hc).2.2.2.1, (hvn c hc).2.2.2.2.1⟩
+
+/-- **`name[k op v]/f`** for the records `rs` stored under the key `name` of the root: the values of `f` of
+exactly the records whose `k` passes the comparison, in list order. -/
+theorem cond_api (cls : Cls) (kvs : List (Str × Val)) (name k f opx op vq v : Str) (lc : Cls) (rs : List Val) (d : Val)
+    (hname : PlainKey name) (hk : FieldKey k) (hf : PlainKey f) (hop : OpSpell opx op) (hlit : LitSpell vq v)
+    (hv : PlainLit v) (hl : lookup name kvs = some (.list lc rs)) (hrs : ∀ r ∈ rs, isDict r = true)
+    (hg : ∀ c kvs' kv, Val.dict c kvs' ∈ rs → lookup k kvs' = some kv → textGuard kv (.str v) = false)
+    (fuel : Nat) (hfuel : fuel ≥ rs.length + 10) :
+    let xp := name ++ bracket (k ++ opx ++ vq) ++ slash ++ f
+    let vals := somes (rs.map (condOutcome k f op (.str v)))
+    get fuel (.dict cls kvs) xp d = (.dict cls kvs, .ok (if vals.isEmpty then d else .list .n0 vals)) ∧
+    getItem fuel (.dict cls kvs) xp = (.dict cls kvs, if vals.isEmpty then .error .IndexError else .ok (.list .n0 vals)) ∧
+    first fuel (.dict cls kvs) xp d = (.dict cls kvs, .ok (firstOf vals d)) := by
+  intro xp vals
+  have hch := cond_text_chars k opx op vq v hk.cond hop hlit hv
+  have hq : startsWith xp ['?'] = false := by
+    simpa [xp, List.append_assoc] using hname.head_ne_q (bracket (k ++ opx ++ vq) ++ slash ++ f)
+  have hpc : hasPathChar xp = true := hasPathChar_slash _ _
+  have htok : tokenize xp = [name ++ bracket (k ++ opx ++ vq), f] :=
+    tokenize_keybr_field name _ f hname hf (fun c hc => (hch c hc).1) (fun c hc => (hch c hc).2)
+  by_cases hne : rs = []
+  · subst hne
+    have := select_api_err cls kvs xp _ d fuel hq hpc htok
+      (fun rl => cond_find_empty cls kvs name k f opx op vq v lc rl hname hk hop hlit hv hl fuel (by omega))
+    simpa [vals, somes] using this
+  · exact select_api cls kvs xp _ vals d fuel hq hpc htok
+      (fun rl => cond_find cls kvs name k f opx op vq v lc rs rl hname hk hf hop hlit hv hl hrs hne hg fuel hfuel)
+
+theorem tokenize_textform (name k e f : Str) (hname : PlainKey name) (hk : PlainKey k) (hf : PlainKey f)
+    (he : ∀ c ∈ e, c ≠ ']' ∧ c ≠ '/') :
+    tokenize (name ++ slash ++ k ++ bracket e ++ slash ++ ['.', '.'] ++ slash ++ f)
+      = [name, k ++ bracket e, ['.', '.'], f] := by
+  have hform : name ++ slash ++ k ++ bracket e ++ slash ++ ['.', '.'] ++ slash ++ f
+      = joinSlash [name, k ++ bracket e, ['.', '.'], f] := by simp [joinSlash, slash]
+  rw [hform]
+  apply tokenize_joinSlash
+  · simp
+  · have h2 : joinSlash [name, k ++ bracket e, ['.', '.'], f]
+        = (name ++ '/' :: k ++ '[' :: e) ++ ']' :: ('/' :: '.' :: '.' :: '/' :: f) := by simp [joinSlash, bracket]
+    rw [h2]
+    apply fixBr_one_rb
+    · intro c hc
+      simp only [List.mem_append, List.mem_cons] at hc
+      rcases hc with (hc | hc | hc) | hc | hc
+      · exact hname.noRB c hc
+      · subst hc; decide
+      · exact hk.noRB c hc
+      · subst hc; decide
+      · exact (he c hc).1
+    · intro c hc
+      simp only [List.mem_cons] at hc
+      rcases hc with hc | hc | hc | hc | hc
+      · subst hc; decide
+      · subst hc; decide
+      · subst hc; decide
+      · subst hc; decide
+      · exact hf.noRB c hc
+    · simp
+  · intro p hp c hc
+    simp only [List.mem_cons, List.not_mem_nil, or_false] at hp
+    rcases hp with rfl | rfl | rfl | rfl
+    · exact hname.noSlash c hc
+    · simp only [List.mem_append] at hc
+      rcases hc with hc | hc
+      · exact hk.noSlash c hc
+      · exact bracket_mem_noSlash e (fun c hc => (he c hc).2) c hc
+    · simp only [List.mem_cons, List.not_mem_nil, or_false] at hc
+      rcases hc with rfl | rfl <;> decide
+    · exact hf.noSlash c hc
+  · intro p hp
+    simp only [List.mem_cons, List.not_mem_nil, or_false] at hp
+    rcases hp with rfl | rfl | rfl | rfl
+    · exact ⟨hname.ne, hname.stripWs⟩
+    · exact ⟨by simp [bracket], stripWs_key_bracket hk e⟩
+    · exact ⟨by simp, by decide⟩
+    · exact ⟨hf.ne, hf.stripWs⟩
+
+/-- **`name/k[text() op v]/../f`**: the same selection as `name[k op v]/f`. -/
+theorem textform_api (cls : Cls) (kvs : List (Str × Val)) (name k f opx op vq v : Str) (lc : Cls) (rs : List Val) (d : Val)
+    (hname : PlainKey name) (hk : FieldKey k) (hf : PlainKey f) (hop : OpSpell opx op) (hlit : LitSpell vq v)
+    (hv : PlainLit v) (hl : lookup name kvs = some (.list lc rs)) (hrs : ∀ r ∈ rs, isDict r = true)
+    (hg : ∀ c kvs' kv, Val.dict c kvs' ∈ rs → lookup k kvs' = some kv → textGuard kv (.str v) = false)
+    (fuel : Nat) (hfuel : fuel ≥ rs.length + 10) :
+    let xp := name ++ slash ++ k ++ bracket (sTextFn ++ opx ++ vq) ++ slash ++ ['.', '.'] ++ slash ++ f
+    let vals := somes (rs.map (condOutcome k f op (.str v)))
+    get fuel (.dict cls kvs) xp d = (.dict cls kvs, .ok (if vals.isEmpty then d else .list .n0 vals)) ∧
+    getItem fuel (.dict cls kvs) xp = (.dict cls kvs, if vals.isEmpty then .error .IndexError else .ok (.list .n0 vals)) ∧
+    first fuel (.dict cls kvs) xp d = (.dict cls kvs, .ok (firstOf vals d)) := by
+  intro xp vals
+  have hch := cond_text_chars sTextFn opx op vq v condKey_text hop hlit hv
+  have hq : startsWith xp ['?'] = false := by
+    simpa [xp, List.append_assoc] using
+      hname.head_ne_q (slash ++ k ++ bracket (sTextFn ++ opx ++ vq) ++ slash ++ ['.', '.'] ++ slash ++ f)
+  have hpc : hasPathChar xp = true := hasPathChar_slash _ _
+  have htok : tokenize xp = [name, k ++ bracket (sTextFn ++ opx ++ vq), ['.', '.'], f] :=
+    tokenize_textform name k _ f hname hk.plain hf hch
+  exact select_api cls kvs xp _ vals d fuel hq hpc htok
+    (fun rl => textform_find cls kvs name k f opx op vq v lc rs rl hname hk hf hop hlit hv hl hrs hg fuel hfuel)
+
 end N0.XPath
